@@ -19,7 +19,7 @@ RULE = ("same (scheme, configuration, key, database) generator as C01 (configura
         "config through the by-name loader, EDB bytes and token bytes returns DB.get(w, empty) after result serialization; "
         "(2b) for every fifth case the same server runs in ANOTHER PROCESS (fresh interpreter, different hash seed, OS entropy); "
         "(2c) for 8 schemes (not SSE-2) a keyword contained in 2^16-1 / 2^16 / 2^16+1 documents goes through the same wire formats; "
-        "(3) a fresh scheme instance with the key reloaded from bytes regenerates byte-identical tokens. Non-trivial = config "
+        "(3b) an index built by that fresh instance with the reloaded key answers the original tokens; (3) a fresh scheme instance with the key reloaded from bytes regenerates byte-identical tokens. Non-trivial = config "
         "differs from the default in a width-bearing field, or some result is non-empty with >= 2 identifiers; distinct = distinct "
         "(scheme, config, sorted length profile, id layout).")
 ASSUMPTIONS = ["token generation is deterministic in all nine schemes (read from the code)",
@@ -129,6 +129,21 @@ def run_case(case):
             if local != final:
                 raise Violation("%s: local and wire answers differ for %s keyword" % (scheme, tag), "%s:local_vs_wire" % scheme)
             wire_tokens.append((w, tag, tok_raw))
+        if sum(len(v) for v in db.values()) <= 60:
+            # the reloaded key is a full replacement of the original: an index built with it by the fresh scheme instance is
+            # searchable with the ORIGINAL tokens (after their wire round trip)
+            try:
+                edb_b = client2.EDBSetup(key2, {w: list(v) for w, v in db.items()})
+            except Exception as e:
+                raise stage_violation(scheme, "client reload: EDBSetup with the reloaded key", e)
+            for w, tag, tok_raw in wire_tokens[:4]:
+                try:
+                    got = client2.Search(edb_b, loader2.SSEToken.deserialize(tok_raw, client2_cfgobj)).get_result_list()
+                except Exception as e:
+                    raise stage_violation(scheme, "Search on the index built with the reloaded key (%s)" % tag.split(":")[0], e)
+                if not S.result_matches(desc, got, db, w):
+                    raise Violation("%s: an index built with the RELOADED key answers the original token of %s keyword %r with %d ids, "
+                                    "expected %d" % (scheme, tag, w, len(got), len(db.get(w, []))), "%s:index_from_reloaded_key" % scheme)
         if case.get("process_boundary"):
             # the same split across a REAL process boundary: a fresh interpreter (own hash seed, own module state, OS entropy)
             # gets only the JSON config, the index bytes and the token bytes
